@@ -104,6 +104,27 @@ class HBytesIO:
         return HBytesIO(self.rope, self.pos)
 
 
+class SymList(L.SymVal):
+    """list of symbolic length hi-lo whose element at position j-lo (lo <= j < hi) is `elem`, a value
+    template over the ONE generic index variable j.  Sound for element-wise obligations: every
+    formula proved for the generic j holds for all j (DESIGN §2.2 'map fact')."""
+    def __init__(self, lo, hi, j, elem):
+        self.lo, self.hi, self.j, self.elem = lo, hi, j, elem
+
+    def length(self):
+        d = L.toint(self.hi) - L.toint(self.lo)
+        return z3.If(d > 0, d, 0)
+
+    def sym_len(self, ctx=None):
+        return self.length()
+
+    def sym_truthy(self, ctx):
+        return self.length() > 0
+
+    def sym_type(self):
+        return list
+
+
 class BoundMeth:
     def __init__(self, func, self_val):
         self.func = func
@@ -1118,6 +1139,29 @@ class Frame:
             r = ch(self, e, it)
             if r is not None:
                 return r
+        gen = _generic_iter(self.ctx, it)
+        if gen == "empty":
+            return []
+        if gen is not None:
+            if g.ifs:
+                raise Undecided("filtered comprehension over a symbolic-length iterable")
+            lo, hi, j, x = gen
+            saved = dict(self.env)
+            self.assign(g.target, x)
+            snap_lists = {oid: (len(o.items), o.base) for oid, o in self.ctx.heap.items() if isinstance(o, HList)}
+            v = elt_fn()
+            # heap effects of the generic iteration: a list that grew has grown an unknown number of times
+            for oid, (n0, b0) in snap_lists.items():
+                o = self.ctx.heap[oid]
+                if len(o.items) != n0 or o.base != b0:
+                    o.items = []
+                    o.base = f"havoc!{oid}!{self.ctx.sink.counter}"
+                    self.ctx.sink.counter += 1
+            for k in list(self.env):
+                if k not in saved:
+                    del self.env[k]
+            self.env.update(saved)
+            return SymList(lo, hi, j, v)
         out = []
         saved = dict(self.env)
         for x in iterate(self.ctx, it):
@@ -1166,6 +1210,22 @@ class Frame:
         return h(self, self.ev(e.value) if e.value is not None else None)
 
 
+def _generic_iter(ctx, it):
+    """(lo, hi, generic index j, generic element) for iterables of symbolic length"""
+    if isinstance(it, SymList):
+        if not ctx.branch(L.toint(it.lo) < L.toint(it.hi)):
+            return "empty"
+        ctx.assume(z3.And(L.toint(it.lo) <= it.j, it.j < L.toint(it.hi)))
+        return it.lo, it.hi, it.j, it.elem
+    if type(it).__name__ == "SymRange" and (is_sym(it.start) or is_sym(it.stop)):
+        if not ctx.branch(L.toint(it.start) < L.toint(it.stop)):
+            return "empty"
+        j = ctx.sink.fresh("j")
+        ctx.assume(z3.And(L.toint(it.start) <= j, j < L.toint(it.stop)))
+        return it.start, it.stop, j, j
+    return None
+
+
 def _is_boolish(v):
     return isinstance(v, bool) or (is_sym(v) and z3.is_bool(v))
 
@@ -1209,6 +1269,8 @@ def iterate(ctx, v):
         return list(v)
     if hasattr(v, "sym_iter"):
         return v.sym_iter(ctx)
+    if isinstance(v, SymList):
+        raise Undecided("statement-level iteration over a symbolic-length list")
     raise Undecided(f"iteration over {type(v).__name__}")
 
 
